@@ -32,7 +32,10 @@ def gen(rng, tier):
            'pct_depth': rng.randrange(1, 4),
            'lat': rng.randrange(2),
            'fault': rng.choice([None, None, 'sever_reconnect', 'sever_final',
-                                'sdisc', 'sever_reconnect'])}
+                                'sdisc', 'sever_reconnect']),
+           # the server greets every (re)connected client with an event that
+           # travels right behind the CONNECT reply
+           'welcome': rng.random() < 0.5}
     consumer = []
     for _ in range(rng.randrange(3, 10)):
         k = rng.random()
@@ -64,7 +67,8 @@ def gen(rng, tier):
                 # client notices the loss (a legal, if unlucky, moment to
                 # call emit)
                 aim = [['until_down', 5.0]]
-            aim += [[rng.choice(['emit', 'emit', 'call'])]
+            aim += [rng.choice([['emit'], ['emit'], ['call'],
+                                ['recv', rng.choice([None, 0.35, 2.5])]])
                     for _ in range(rng.randrange(1, 4))]
             consumer[0:0] = aim
     return {'cfg': cfg, 'consumer': consumer, 'producer': producer}
@@ -122,7 +126,11 @@ def _run(case, cfg, w):
                        ping_timeout=3)
     got_by_server = []
 
+    welcome_on = [False]
+
     def splan(label, args, ev):
+        if label[3] == 'connect' and welcome_on[0] and cfg.get('welcome'):
+            w.after(0.0, lambda: produce('emit', 1))
         if label[3] == 'ping':
             got_by_server.append(args[1:])
             return [('ret', ['pong', args[1] if len(args) > 1 else None])]
@@ -158,8 +166,15 @@ def _run(case, cfg, w):
     def _set():
         if not sc.connected:
             rec.add('final_disconnect')
+        rec.add('ce_set')
         return _orig_set()
     sc.connected_event.set = _set
+    _orig_clear = sc.connected_event.clear
+
+    def _clear():
+        rec.add('ce_clear')
+        return _orig_clear()
+    sc.connected_event.clear = _clear
     # the instant the client starts processing the final end of the
     # connection, and every time an emit()/call() is released from its wait
     # for a reconnection (the moment it looks at the connection state)
@@ -190,6 +205,7 @@ def _run(case, cfg, w):
             return r
     sc.connected_event.wait = _wait
     t0 = w.now()
+    welcome_on[0] = True
     counter = [0]
     final_at = [None]      # virtual time at which the connection ended for good
     nontrivial = bool(fault)
@@ -317,6 +333,31 @@ def _run(case, cfg, w):
     for it in arr_items:
         if not (isinstance(it, list) and len(it) == 2 and it[0] == 'n'):
             v.add('event_shape', trepr(it))
+    # "never ... held back": in virtual time handling takes no time, so a
+    # receive() returns an event at the very instant the event is there and
+    # the call has started - not later, when something else wakes it up
+    if ret_items == arr_items[:len(ret_items)]:
+        start_t = {e['step']: e['t'] for e in rec.events
+                   if e['kind'] == 'recv_start'}
+        # while the client is reconnecting a receive() with an empty buffer
+        # waits for the connection first: [clear, next set) intervals
+        down = []
+        for e in rec.events:
+            if e['kind'] == 'ce_clear':
+                down.append([e['t'], None])
+            elif e['kind'] == 'ce_set' and down and down[-1][1] is None:
+                down[-1][1] = e['t']
+        for j, r in enumerate(returned):
+            t_avail = max(arrivals[j]['t'], start_t.get(r['step'], 0.0))
+            for a, b in down:
+                if a <= t_avail + 1e-9 and (b is None or t_avail < b):
+                    t_avail = b if b is not None else r['t']
+            if r['t'] - t_avail > 1e-6:
+                v.add('event_held_back', 'step %d: event %s was available '
+                      'to the pending receive() at t=%.6f but returned at '
+                      't=%.6f' % (r['step'], trepr(r['val']), t_avail,
+                                  r['t']))
+                break
     # final end of the connection: the client's __disconnect_final has run
     ended = not sc.connected
     # TimeoutError only while no event is available
